@@ -325,7 +325,7 @@ def run(mod, tier, seed, replay=None):
         print(f"  [{kind}] {msgs[0][:400]}")
         print(f"VIOLATION property={pid} replay={path}{tail}")
     print(f"{pid} {tier}: {len(cases)} cases ({len(nontriv)} non-trivial), {len(terms)} model-checked, "
-          f"{len(cbad)} mismatches, {len(dfail)} direct failures, {n_thm} theorems, "
+          f"{len(cbad)} mismatches, {len(dfail)} direct failures ({len(known_hits)} recorded findings hit), {n_thm} theorems, "
           f"{time.time() - ctx.t0:.1f}s")
     return 1 if violations else 0
 
